@@ -37,6 +37,7 @@ def mkInit (initial : String) (kinds : List (Kind × Bool)) : St :=
     pc := fun _ => .start
     kind := fun p => match kinds[p - 1]? with | some (k, _) => k | none => .obtain
     async := fun p => match kinds[p - 1]? with | some (_, a) => a | none => false
+    budget := fun _ => 100000
     contacted := fun _ => false, issuedBy := fun _ => 0 }
 
 /-- run the LTS over the items; `fin p ok` must find p finished with that outcome -/
